@@ -190,7 +190,9 @@ def opStarts : M String := do
   let N ← nat
   let L ← nat
   let K ← int
-  let D := if which == "even" then Model.startsEven (α := Float) N L K else Model.startsAccum (α := Float) N L K
+  let D := if which == "even" then Model.startsEven (α := Float) N L K
+    else if which == "gen" then Gen.ltf_plan_starts (α := Float) (N : Int) (L : Int) K     -- translated from ltf_plan each run
+    else Model.startsAccum (α := Float) N L K
   return " ".intercalate (D.map toString)
 
 def opAttr : M String := do
